@@ -29,7 +29,11 @@ type Obj struct {
 // Rec is a struct value (copied on assignment).
 type Rec struct {
 	Fields map[string]Value
+	T      string // named type ("ast.Atom"), "" if unknown
 }
+
+// TimeVal models a time.Time as nanoseconds.
+type TimeVal struct{ NS int64 }
 
 // Slice is a slice value with shared backing store.
 type Slice struct{ Elems *[]Value }
@@ -140,6 +144,47 @@ func New(p *core.Program) *Interp {
 	return &Interp{Prog: p, Stubs: map[string]func(*Interp, Value, []Value) ([]Value, error){}, Fuel: 100000}
 }
 
+// global returns the value of a package-level variable: from Globals, or by
+// evaluating its initializer when that is a constant-only composite literal.
+func (in *Interp) global(o types.Object) (Value, bool) {
+	name := core.ObjName(o)
+	if v, ok := in.Globals[name]; ok {
+		return v, true
+	}
+	rel := core.RelOf(o.Pkg())
+	pkg := in.Prog.Pkg(rel)
+	if pkg == nil {
+		return nil, false
+	}
+	for _, file := range pkg.Syntax {
+		for _, d := range file.Decls {
+			gd, ok := d.(*ast.GenDecl)
+			if !ok || gd.Tok != token.VAR {
+				continue
+			}
+			for _, sp := range gd.Specs {
+				vs := sp.(*ast.ValueSpec)
+				for i, nm := range vs.Names {
+					if pkg.TypesInfo.Defs[nm] != o || i >= len(vs.Values) {
+						continue
+					}
+					fr := &frame{in: in, info: pkg.TypesInfo, env: newEnv(nil)}
+					v, err := fr.expr(vs.Values[i])
+					if err != nil {
+						return nil, false
+					}
+					if in.Globals == nil {
+						in.Globals = map[string]Value{}
+					}
+					in.Globals[name] = v
+					return v, true
+				}
+			}
+		}
+	}
+	return nil, false
+}
+
 // Reset clears the event log and fuel.
 func (in *Interp) Reset() { in.Events = in.Events[:0]; in.Fuel = 100000; in.depth = 0 }
 
@@ -169,7 +214,7 @@ func (e *env) define(o types.Object, v Value) { e.vars[o] = &variable{v} }
 // copyVal implements value semantics for struct values.
 func copyVal(v Value) Value {
 	if r, ok := v.(*Rec); ok && r != nil {
-		n := &Rec{Fields: make(map[string]Value, len(r.Fields))}
+		n := &Rec{Fields: make(map[string]Value, len(r.Fields)), T: r.T}
 		for k, f := range r.Fields {
 			n.Fields[k] = copyVal(f)
 		}
@@ -281,7 +326,10 @@ func zeroOf(t types.Type) (Value, error) {
 	case *types.Slice:
 		return (*Slice)(nil), nil
 	case *types.Struct:
-		r := &Rec{Fields: map[string]Value{}}
+		if core.TypeName(t) == "time.Time" {
+			return TimeVal{}, nil
+		}
+		r := &Rec{Fields: map[string]Value{}, T: core.TypeName(t)}
 		for i := 0; i < u.NumFields(); i++ {
 			z, err := zeroOf(u.Field(i).Type())
 			if err != nil {
@@ -410,6 +458,8 @@ func (f *frame) stmt(s ast.Stmt) (ctl, error) {
 		return ctlNone, nil
 	case *ast.SwitchStmt:
 		return f.switchStmt(s)
+	case *ast.TypeSwitchStmt:
+		return f.typeSwitch(s)
 	case *ast.BranchStmt:
 		if s.Label != nil {
 			return ctlNone, unsup(s.Pos(), "labelled branch")
@@ -609,6 +659,88 @@ func (f *frame) switchStmt(s *ast.SwitchStmt) (ctl, error) {
 	return ctlNone, nil
 }
 
+func (f *frame) typeSwitch(s *ast.TypeSwitchStmt) (ctl, error) {
+	saved := f.env
+	f.env = newEnv(saved)
+	defer func() { f.env = saved }()
+	if s.Init != nil {
+		if c, err := f.stmt(s.Init); err != nil || c != ctlNone {
+			return c, err
+		}
+	}
+	var ta *ast.TypeAssertExpr
+	var bind *ast.Ident
+	switch a := s.Assign.(type) {
+	case *ast.AssignStmt:
+		ta, _ = ast.Unparen(a.Rhs[0]).(*ast.TypeAssertExpr)
+		bind, _ = a.Lhs[0].(*ast.Ident)
+	case *ast.ExprStmt:
+		ta, _ = ast.Unparen(a.X).(*ast.TypeAssertExpr)
+	}
+	if ta == nil {
+		return ctlNone, unsup(s.Pos(), "type switch form")
+	}
+	v, err := f.expr(ta.X)
+	if err != nil {
+		return ctlNone, err
+	}
+	var chosen, deflt *ast.CaseClause
+	for _, cs := range s.Body.List {
+		cc := cs.(*ast.CaseClause)
+		if cc.List == nil {
+			deflt = cc
+			continue
+		}
+		for _, te := range cc.List {
+			if id, ok := te.(*ast.Ident); ok && id.Name == "nil" {
+				if v == nil {
+					chosen = cc
+				}
+				continue
+			}
+			is, known := dynIs(v, f.info.TypeOf(te))
+			if !known {
+				return ctlNone, unsup(s.Pos(), "type switch on %T", v)
+			}
+			if is {
+				chosen = cc
+				break
+			}
+		}
+		if chosen != nil {
+			break
+		}
+	}
+	if chosen == nil {
+		chosen = deflt
+	}
+	if chosen == nil {
+		return ctlNone, nil
+	}
+	inner := newEnv(f.env)
+	if bind != nil {
+		if o := f.info.Implicits[chosen]; o != nil {
+			inner.define(o, v)
+		}
+	}
+	sv := f.env
+	f.env = inner
+	defer func() { f.env = sv }()
+	for _, st := range chosen.Body {
+		c, err := f.stmt(st)
+		if err != nil {
+			return ctlNone, err
+		}
+		if c == ctlBreak {
+			return ctlNone, nil
+		}
+		if c != ctlNone {
+			return c, nil
+		}
+	}
+	return ctlNone, nil
+}
+
 func valuesEqual(a, b Value) bool {
 	switch x := a.(type) {
 	case int64:
@@ -649,6 +781,9 @@ func valuesEqual(a, b Value) bool {
 		return false
 	case ErrVal:
 		y, ok := b.(ErrVal)
+		return ok && x == y
+	case TimeVal:
+		y, ok := b.(TimeVal)
 		return ok && x == y
 	case *Rec:
 		y, ok := b.(*Rec)
@@ -701,7 +836,25 @@ func (f *frame) assign(s *ast.AssignStmt) error {
 		return f.store(s.Lhs[0], v)
 	}
 	var vals []Value
-	if ix, ok := ast.Unparen(s.Rhs[0]).(*ast.IndexExpr); ok && len(s.Rhs) == 1 && len(s.Lhs) == 2 {
+	if ta, ok := ast.Unparen(s.Rhs[0]).(*ast.TypeAssertExpr); ok && len(s.Rhs) == 1 && len(s.Lhs) == 2 && ta.Type != nil {
+		v, err := f.expr(ta.X)
+		if err != nil {
+			return err
+		}
+		is, known := dynIs(v, f.info.TypeOf(ta.Type))
+		if !known {
+			return unsup(s.Pos(), "type assertion on %T", v)
+		}
+		if is {
+			vals = []Value{v, true}
+		} else {
+			z, err := zeroOf(f.info.TypeOf(ta.Type))
+			if err != nil {
+				z = nil
+			}
+			vals = []Value{z, false}
+		}
+	} else if ix, ok := ast.Unparen(s.Rhs[0]).(*ast.IndexExpr); ok && len(s.Rhs) == 1 && len(s.Lhs) == 2 {
 		xv, err := f.expr(ix.X)
 		if err != nil {
 			return err
@@ -945,7 +1098,7 @@ func (f *frame) exprMulti(e ast.Expr) ([]Value, error) {
 			return []Value{vr.v}, nil
 		}
 		if o != nil && o.Parent() != nil && o.Pkg() != nil && o.Parent() == o.Pkg().Scope() {
-			if v, ok := f.in.Globals[core.ObjName(o)]; ok {
+			if v, ok := f.in.global(o); ok {
 				return []Value{v}, nil
 			}
 		}
@@ -988,7 +1141,7 @@ func (f *frame) exprMulti(e ast.Expr) ([]Value, error) {
 			return nil, unsup(e.Pos(), "field selection on %T", b)
 		}
 		if o := f.info.Uses[e.Sel]; o != nil && o.Pkg() != nil && o.Parent() == o.Pkg().Scope() {
-			if v, ok := f.in.Globals[core.ObjName(o)]; ok {
+			if v, ok := f.in.global(o); ok {
 				return []Value{v}, nil
 			}
 		}
@@ -1032,6 +1185,14 @@ func (f *frame) exprMulti(e ast.Expr) ([]Value, error) {
 				}
 				if rec, ok := r.(*Rec); ok {
 					return []Value{&Obj{Name: "new", Fields: rec.Fields}}, nil
+				}
+			}
+			if id, ok := ast.Unparen(e.X).(*ast.Ident); ok {
+				if vr := f.env.lookup(f.info.Uses[id]); vr != nil {
+					if rec, ok := vr.v.(*Rec); ok && rec != nil {
+						// pointer to a local struct variable: share its fields
+						return []Value{&Obj{Name: "&" + id.Name, Fields: rec.Fields}}, nil
+					}
 				}
 			}
 			if ix, ok := ast.Unparen(e.X).(*ast.IndexExpr); ok {
@@ -1124,8 +1285,46 @@ func (f *frame) exprMulti(e ast.Expr) ([]Value, error) {
 		return []Value{(*sl.Elems)[idx]}, nil
 	case *ast.CallExpr:
 		return f.call(e)
+	case *ast.TypeAssertExpr:
+		v, err := f.expr(e.X)
+		if err != nil {
+			return nil, err
+		}
+		if e.Type == nil {
+			return nil, unsup(e.Pos(), "type switch guard outside switch")
+		}
+		ok, known := dynIs(v, f.info.TypeOf(e.Type))
+		if !known {
+			return nil, unsup(e.Pos(), "type assertion on %T", v)
+		}
+		if !ok {
+			return nil, unsup(e.Pos(), "forced type assertion fails in the abstract state (would panic)")
+		}
+		return []Value{v}, nil
 	}
 	return nil, unsup(e.Pos(), "expression %T", e)
+}
+
+// dynIs reports whether the dynamic type of v is t (ok) and whether that is decidable (known).
+func dynIs(v Value, t types.Type) (ok, known bool) {
+	name := core.TypeName(t)
+	if _, isIface := t.Underlying().(*types.Interface); isIface {
+		return v != nil, true
+	}
+	switch x := v.(type) {
+	case *Rec:
+		if x == nil || x.T == "" || name == "" {
+			return false, false
+		}
+		return x.T == name, true
+	case nil:
+		return false, true
+	case TimeVal:
+		return name == "time.Time", true
+	case ErrVal:
+		return false, true
+	}
+	return false, false
 }
 
 func binop(pos token.Pos, op token.Token, l, r Value) (Value, error) {
@@ -1180,7 +1379,10 @@ func (f *frame) compositeLit(e *ast.CompositeLit) (Value, error) {
 	if err != nil {
 		return nil, unsup(e.Pos(), "zero value of %v", t)
 	}
-	r := zv.(*Rec)
+	r, isRec := zv.(*Rec)
+	if !isRec {
+		return nil, unsup(e.Pos(), "composite literal of %v", t)
+	}
 	for i, el := range e.Elts {
 		if kv, ok := el.(*ast.KeyValueExpr); ok {
 			v, err := f.expr(kv.Value)
